@@ -50,6 +50,7 @@ META = {
 }
 
 ATOL = 1e-5
+UNIT_TOL = 32
 RATIOS: dict = {}
 torch.set_num_threads(1)   # tiny tensors: OpenMP fan-out only costs time on a shared machine
 
@@ -201,9 +202,11 @@ def oracle_item(ctx: Ctx, case, idx, X, src, tgt, truth, eps):
     st = U.stats(src, tgt)
     q = X[3:7]
     nq = float(q.norm())
-    track("unit", abs(nq - 1), 8 * eps)
-    if not (abs(nq - 1) <= 8 * eps):
-        ctx.fail(cid, f"valid: {fn} quaternion norm {nq!r} differs from 1 by more than 8 eps")
+    # the quaternion is extracted (not re-normalised) from U·M·V of a float SVD: each factor is orthogonal to a few eps;
+    # 8.02·eps32 was observed once in 40 000 float32 items, hence 32·eps here (the shared 8·eps is for single group ops)
+    track("unit", abs(nq - 1), UNIT_TOL * eps)
+    if not (abs(nq - 1) <= UNIT_TOL * eps):
+        ctx.fail(cid, f"valid: {fn} quaternion norm {nq!r} differs from 1 by more than {UNIT_TOL} eps")
         ok = False
     if fn == "svdstf" and not (float(X[7]) > 0 and math.isfinite(float(X[7]))):
         ctx.fail(cid, f"valid: svdstf scale {float(X[7])!r} is not a positive finite number")
@@ -256,10 +259,10 @@ def cost_tol(eps, st, sc, cent):
     """allowance on `cost(implementation) - cost(optimum)`, first order in eps:
     * the rotation / scale are determined from M only to eps·cent·‖M‖ (cent: digits lost by centring); in an
       ill-conditioned direction this costs up to that much;
-    * a quaternion with unit norm only to 8·eps (the property's allowance) scales the rotation by 1 ± 16·eps, which
-      changes the cost by up to 4·16·eps·(s²A + B);
+    * a quaternion with unit norm only to UNIT_TOL·eps scales the rotation by 1 ± 2·UNIT_TOL·eps, which changes the
+      cost by up to 4·2·UNIT_TOL·eps·(s²A + B);
     * rounding of the translation: N·(eps·D)²."""
-    return 32 * eps * cent * math.sqrt(st["A"] * st["B"]) + 64 * eps * (sc * sc * st["A"] + st["B"]) + \
+    return 32 * eps * cent * math.sqrt(st["A"] * st["B"]) + 8 * UNIT_TOL * eps * (sc * sc * st["A"] + st["B"]) + \
         64 * st["N"] * (eps * (st["Dt"] + sc * st["Ds"])) ** 2
 
 
@@ -727,7 +730,7 @@ def check_icp_gen(ctx: Ctx, spec, use_model=True):
             ok = False
         X = Xall[0]
         nq = float(X[3:7].norm())
-        if not torch.isfinite(X).all() or abs(nq - 1) > 8 * eps:
+        if not torch.isfinite(X).all() or abs(nq - 1) > UNIT_TOL * eps:
             ctx.fail(case, f"valid: ICP result is not a valid SE3 element (|q|={nq!r})")
             return False
         En = U.mscd(U.apply_vec(X, S64), T64)
@@ -958,12 +961,21 @@ def epnp_compare(ctx, case, est, T, pts, pix, K) -> bool:
         pe = U.apply_vec(E[b], ptsb[b])
         pg = U.apply_vec(G[b], ptsb[b])
         ep = float((pe - pg).abs().max()) / depth
-        # measured accuracy tiers of the unchanged tree on this scene family (11 000 scenes: worst 3.5e-12 / 2.4e-10 with
-        # refinement for N>=8 / N<8, 4e-10 / 1.7e-8 without) times >= 50: with 6 or 7 points the 12x12 system M^T M
-        # is (nearly) exactly determined and markedly worse conditioned
+        # measured accuracy tiers of the unchanged tree (>= 50 x the worst of 20 000 clean scenes per tier; the error has a
+        # heavy tail for the (nearly) exactly determined 6/7-point systems and for narrow fields of view):
+        #   well conditioned (N >= 8, depth <= 5 radii, anisotropy >= 0.6): clean max 2.0e-10 without refinement
+        #   (median 4e-14), 1.2e-11 with; otherwise without refinement N=6: 2.2e-6, N=7: 8.1e-9, N>=8: 9.2e-9;
+        #   with refinement N<8: 6.0e-10, N>=8: 1.2e-11
         small = case["N"] < 8
-        tol = (2e-8 if small else 1e-9) if case["refine"] else (1e-6 if small else 2e-8)
-        track(f"epnp.{'refine' if case['refine'] else 'norefine'}.{'small' if small else 'big'}", max(er, et, ep), tol)
+        wellc = case["N"] >= 8 and case["depth"] <= 5 and case["aniso"] >= 0.6
+        if case["refine"]:
+            tol = 1e-7 if small else 1e-9
+        elif wellc:
+            tol = 2e-8
+        else:
+            tol = 1e-4 if case["N"] == 6 else 1e-6
+        small = "small" if small else ("well" if wellc else "big")
+        track(f"epnp.{'refine' if case['refine'] else 'norefine'}.{small}", max(er, et, ep), tol)
         ctx.count("epnp.items")
         if not (er <= tol and et <= tol and ep <= tol):
             ctx.fail(case, f"recover: EPnP does not recover the camera pose from exact projections: rotation error {er:.3e}, "
@@ -981,6 +993,9 @@ def epnp_compare(ctx, case, est, T, pts, pix, K) -> bool:
 def epnp_corner_specs():
     fixed = random.Random(777)
     out = []
+    for N in (8, 12, 30, 100, 9, 20):     # the well-conditioned family without refinement: the tight tier
+        out.append(epnp_spec(fixed, N=N, refine=False, kmode="ctor", batch=fixed.choice([0, 0, 2]), second_call=False,
+                             depth=fixed.choice([2.0, 3.0, 5.0]), aniso=fixed.choice([1.0, 0.6])))
     for N, refine, kmode, nb, second in ((6, True, "ctor", 0, True), (6, False, "forward", 0, False), (8, True, "override", 2, True),
                                          (20, False, "ctor", 3, False), (100, True, "forward", 0, False), (100, False, "override", 0, True),
                                          (7, True, "ctor", 0, False), (10, False, "ctor", 2, True)):
